@@ -298,7 +298,7 @@ pub fn run(ctx: &RunCtx) -> i32 {
                     if !pick_all && si != chosen {
                         continue;
                     }
-                    base.framing = Framing { cuts: cuts.clone(), pendings, pending_at_end: at_end, immediate_wake: immediate, error_at: None };
+                    base.framing = Framing { cuts: cuts.clone(), pendings, pending_at_end: at_end, immediate_wake: immediate, error_at: None, stall_at: None };
                     base.partition_class = pclass.into();
                     base.schedule_class = sclass.into();
                     judge(&rt, r, &base, Some(&reference));
